@@ -51,3 +51,12 @@ add("C01", "exploration", [
      "shards": {"quick": 10, "thorough": 16}, "checks": {"quick": 300, "thorough": 15000},
      "timeout": {"quick": 600, "thorough": 3000}},
 ])
+
+add("C17", "exploration", [
+    {"name": "c17-readers", "bin": "c17", "pkg": ZZ + "c17", "run": "^TestVerifC17Readers$",
+     "shards": {"quick": 8, "thorough": 16}, "checks": {"quick": 1500, "thorough": 50000},
+     "timeout": {"quick": 600, "thorough": 3000}},
+    {"name": "c17-exec", "bin": "exec", "pkg": "./exec", "run": "^TestVerifC17ExecReaders$",
+     "shards": {"quick": 4, "thorough": 8}, "checks": {"quick": 1500, "thorough": 40000},
+     "timeout": {"quick": 600, "thorough": 3000}},
+])
